@@ -81,6 +81,22 @@ V7Other == [i \in 1..(4 * 2 * 12 * 3 * 3 * 6) |->
         Prog7(Reads7[((i % 4)) + 1], WSeq7[D(i, 8, 12) + 1], Rets7[D(i, 96, 3) + 1], Muts7[(i % 6) + 1]),
         ModeSeq7[D(i, 288, 3) + 1], Sess7[((D(i, 864, 6) + Seed) % 6) + 1])]
 
+(* error VALUES a handler may return: io.EOF itself, an error wrapping it, io.ErrUnexpectedEOF, a wrapped stanza    *)
+(* error, a stream error value bare and wrapped - every (type, id, writes, mode) of an iq with each of them, KR       *)
+(* derived combinations of the other dimensions each (thorough: payload and read exhaustive as well)                 *)
+RetsV7 == <<"eof", "weof", "ueof", "wstanzaerr", "streamerr", "wstreamerr">>
+KR == IF Tier = "quick" THEN 4 ELSE 2
+NRetBase == IF Tier = "quick" THEN 6 * 4 * 12 * 6 * 3 ELSE 6 * 4 * 12 * 6 * 3 * 4 * 4
+V7Ret == [i \in 1..(NRetBase * KR) |->
+   LET t == D(i, 1, 6)  id == D(i, 6, 4)  w == D(i, 24, 12)  r == D(i, 288, 6)  m == D(i, 1728, 3)
+       j == D(i, NRetBase, KR) + D(i, 5184, 16) * KR
+       c == t + id + w + r + m + Seed
+   IN Vec7(El7("iq", Types7[t + 1], Ids7[id + 1], Froms7[((3 * j + c) % 5) + 1], Tos7[((j + c) % 3) + 1],
+               ENS7[((j \div 2 + c) % 3) + 1], Pays7[IF Tier = "quick" THEN ((c + j) % 4) + 1 ELSE D(i, 5184, 4) + 1]),
+           Prog7(Reads7[IF Tier = "quick" THEN ((c \div 2 + j) % 4) + 1 ELSE D(i, 20736, 4) + 1], WSeq7[w + 1], RetsV7[r + 1],
+                 Muts7[((j + c \div 3) % 6) + 1]),
+           ModeSeq7[m + 1], Sess7[((5 * j + c) % 6) + 1])]
+
 N7 == IF Tier = "quick" THEN N7Quick ELSE N7Full
 V7At(i) == IF Tier = "quick" THEN V7QuickAt(i) ELSE V7FullAt(i)
 SliceLo(n) == ((Part - 1) * n) \div NParts + 1
@@ -90,7 +106,8 @@ ASSUME Which = "c07" =>
   LET lo == SliceLo(N7)  hi == SliceHi(N7)
   IN /\ ndJsonSerialize("c07_vectors_" \o ToString(Part) \o ".ndjson", [j \in 1..(hi - lo + 1) |-> V7At(lo + j - 1)])
      /\ (Part = 1 => ndJsonSerialize("c07_vectors_99.ndjson", V7Other))
-     /\ PrintT(<<"EMITTED", hi - lo + 1, IF Part = 1 THEN Len(V7Other) ELSE 0>>)
+     /\ (Part = NParts => ndJsonSerialize("c07_vectors_98.ndjson", V7Ret))
+     /\ PrintT(<<"EMITTED", hi - lo + 1, IF Part = 1 THEN Len(V7Other) ELSE 0, IF Part = NParts THEN Len(V7Ret) ELSE 0>>)
 
 ---------------------------------------------------------------------------
 (* C08 *)
@@ -138,14 +155,18 @@ Cycles == << <<P8(0, "stop")>>, <<P8(1, "stop")>>, <<P8(1, "ignore")>>, <<P8(2, 
 Setups8 == SetToSeq({s \in AllSess : s.kind # "ws"})
 NS8 == Len(Setups8)
 
-Vec8(items, cyc, s) ==
+(* wn: the number of read attempts a waiting requester makes on the response it is handed (items of kind "resp");  *)
+(* resps: how many responses are handed over before the session ends                                               *)
+Vec8W(items, cyc, s, wn) ==
   LET inv == C08_Invocations(items, s)
-  IN [sess |-> s, local |-> Local(s), was |-> Was(s), items |-> items, progs |-> cyc,
+  IN [sess |-> s, local |-> Local(s), was |-> Was(s), items |-> items, progs |-> cyc, wn |-> wn,
+      resps |-> Len(SelectSeq(UpToFirst(items), LAMBDA it : it.k = "el" /\ it.kind = "resp")),
       inv |-> [i \in 1..Len(inv) |->
                  LET x == C08_Events(inv[i], cyc[((i - 1) % Len(cyc)) + 1])
                  IN [kind |-> inv[i].kind, from |-> inv[i].from, ev |-> x.ev, free |-> x.free,
-                     win |-> Window(SelectSeq(UpToFirst(items), LAMBDA it : it.k = "el")[i])]],
+                     win |-> Window(SelectSeq(UpToFirst(items), ToHandler)[i])]],
       out |-> SetToSeq(C08_Outcomes(items))]
+Vec8(items, cyc, s) == Vec8W(items, cyc, s, 0)
 
 NT == Len(Terms)
 NV8 == Len(PrefixIdx) * NT * 2 * Len(Cycles)
@@ -157,10 +178,41 @@ V8(lo, hi) == [j \in 1..(hi - lo + 1) |->
        cyc == Cycles[D(i, Len(PrefixIdx) * NT * 2, Len(Cycles)) + 1]
    IN Vec8(pre \o (IF t.k = "none" THEN <<>> ELSE <<t>>) \o post, cyc, Setups8[((i + Seed) % NS8) + 1])]
 
+(* responses to pending requests (handed to the waiting requester, not to the handler): a plain one before every   *)
+(* terminator (group A), and one with a stream-level construct at depth 1 / 2 / 3 / at its end behind every short   *)
+(* prefix (group B); the requester's number of reads rotates                                                        *)
+RespPlain == Elem("resp", "peer", B1)
+PlainR == Plain \o <<RespPlain>>
+NPR == Len(PlainR)
+PrefixWithResp == <<<<NPR>>>> \o [i \in 1..NPR |-> <<NPR, i>>] \o [i \in 1..(NPR - 1) |-> <<i, NPR>>]
+PrefixShort == <<<<>>>> \o [i \in 1..NPR |-> <<i>>] \o PrefixWithResp
+PrefixROf(ix) == [i \in 1..Len(ix) |-> PlainR[ix[i]]]
+PlacesR == << <<1, 1>>, <<1, 2>>, <<2, 4>>, <<2, 10>> >>
+NestedResp == [i \in 1..28 |-> Elem("resp", "peer", Ins(Shape(PlacesR[D(i, 7, 4) + 1][1]), PlacesR[D(i, 7, 4) + 1][2], StopToks[D(i, 1, 7) + 1]))]
+WReads == <<0, 1, 2, 3, 5, 13>>
+NRA == Len(PrefixWithResp) * NT * 2 * Len(Cycles)
+NRB == Len(PrefixShort) * 28 * 2 * Len(Cycles)
+V8RA(i) ==
+   LET pre == PrefixROf(PrefixWithResp[D(i, 1, Len(PrefixWithResp)) + 1])
+       t == Terms[D(i, Len(PrefixWithResp), NT) + 1]
+       post == Posts[D(i, Len(PrefixWithResp) * NT, 2) + 1]
+       cyc == Cycles[D(i, Len(PrefixWithResp) * NT * 2, Len(Cycles)) + 1]
+   IN Vec8W(pre \o (IF t.k = "none" THEN <<>> ELSE <<t>>) \o post, cyc, Setups8[((i + Seed) % NS8) + 1], WReads[((i + i \div 5) % 6) + 1])
+V8RB(i) ==
+   LET pre == PrefixROf(PrefixShort[D(i, 1, Len(PrefixShort)) + 1])
+       t == NestedResp[D(i, Len(PrefixShort), 28) + 1]
+       post == Posts[D(i, Len(PrefixShort) * 28, 2) + 1]
+       cyc == Cycles[D(i, Len(PrefixShort) * 28 * 2, Len(Cycles)) + 1]
+   IN Vec8W(pre \o <<t>> \o post, cyc, Setups8[((i + Seed) % NS8) + 1], WReads[((i + i \div 7) % 6) + 1])
+NVR == NRA + NRB
+V8R(lo, hi) == [j \in 1..(hi - lo + 1) |-> LET i == j + lo - 1 IN IF i <= NRA THEN V8RA(i) ELSE V8RB(i - NRA)]
+
 ASSUME Which = "c08" =>
   LET lo == SliceLo(NV8)  hi == SliceHi(NV8)
+      rlo == SliceLo(NVR)  rhi == SliceHi(NVR)
   IN /\ ndJsonSerialize("c08_vectors_" \o ToString(Part) \o ".ndjson", V8(lo, hi))
-     /\ PrintT(<<"EMITTED", hi - lo + 1>>)
+     /\ ndJsonSerialize("c08_vectors_9" \o ToString(Part) \o ".ndjson", V8R(rlo, rhi))
+     /\ PrintT(<<"EMITTED", hi - lo + 1, rhi - rlo + 1>>)
      /\ PrintT(<<"SETUPS", NS8>>)
 
 ENext == UNCHANGED <<c7vars, c8vars>>
